@@ -7,11 +7,13 @@
    [frag_simplify ora t] IS [simplify_with ora t] whenever t is a well-typed Bool term of the
    fragment without Int/Real division ([nodiv]: C01's theorem asks [div_safe I t], which then
    holds under every interpretation); elsewhere it leaves t alone (C01 says nothing there).
-   Not discharged: [shape_hyp] (that the simplifier maps an atom to a literal). *)
+   [shape_hyp] is FALSE of the simplifier ([shape_hyp_refuted]: Select on a constant array value with
+   Bool elements); the shape theorems are proved for inputs whose atoms are not such selects
+   ([atoms_ok]), with no simplifier hypothesis. *)
 From Coq Require Import List ZArith Bool String.
 From PySMT.core Require Import Syntax SyntaxLemmas Sem.
 From PySMT.models Require Import TypeChecker Oracles Simplifier Cnf.
-From PySMT.proofs Require Import Cnf_proofs SimplifierSemBase_proofs SimplifierSem_proofs.
+From PySMT.proofs Require Import Cnf_proofs Simplifier_proofs SimplifierSemBase_proofs SimplifierSem_proofs.
 Import ListNotations.
 Open Scope bool_scope.
 
@@ -88,6 +90,147 @@ Section WithOracle.
   Proof. exact (pol_sound_rel asimp wfi (frag_simplify_sound ora) wfi_closed f st cl st' J). Qed.
   (* the extension of a well-sorted interpretation is well-sorted (the witness gives Booleans) *)
 End WithOracle.
+
+(* ================================================================= shape, with no simplifier hypothesis *)
+(* roots of atoms at which the simplifier keeps an atom an atom: symbols, constants, applications,
+   arithmetic / bit-vector relations, equalities, string predicates.  NOT Select: on a constant
+   array value with Bool elements the simplifier returns the stored element, which may be any
+   Boolean formula ([shape_hyp_refuted], [cnf_shape_refuted]); not quantifiers (CNFizer raises). *)
+Definition atom_root (o : op) : bool :=
+  match o with
+  | OSymbol _ _ | OFunction _ _ | OBoolC _ | OIntC _ | ORealC _ _ | OBVC _ _ | OStrC _
+  | OLe | OLt | OEquals | OBVRel _ | OStr SContains | OStr SPrefixOf | OStr SSuffixOf => true
+  | _ => false
+  end.
+Definition lit_ok (l : term) : bool :=
+  match l with T ONot [a] => atom_root (top a) | _ => atom_root (top l) end.
+Definition atoms_ok (f : term) : bool := forallb (fun a => atom_root (top a)) (leaves f).
+
+Lemma atom_root_atomic o : atom_root o = true -> is_connective o = false.
+Proof. destruct o; try discriminate; reflexivity. Qed.
+Lemma lit_ok_litc l : lit_ok l = true -> litc l = true.
+Proof.
+  destruct l as [o args]. unfold lit_ok, litc, atomic.
+  destruct o; try (intros H; rewrite (atom_root_atomic _ H); reflexivity); try discriminate.
+  destruct args as [|a [|b r]]; try discriminate. intros H. now rewrite (atom_root_atomic _ H).
+Qed.
+
+Ltac crush_rule H :=
+  repeat (match type of H with
+          | context [match ?x with _ => _ end] => destruct x
+          end; try discriminate H);
+  try (injection H as <-; reflexivity).
+
+Lemma rule_root ora o args r : atom_root o = true -> rule ora o args = Some r -> atom_root (top r) = true.
+Proof.
+  intros Ho H. destruct o; try discriminate Ho; cbn [rule] in H.
+  - (* symbol *) injection H as <-. reflexivity.
+  - (* function *) unfold Ctors.mk_function in H. crush_rule H.
+  - injection H as <-. reflexivity.
+  - injection H as <-. reflexivity.
+  - injection H as <-. reflexivity.
+  - injection H as <-. reflexivity.
+  - (* le *) unfold bin, r_le, num_cmp in H. crush_rule H.
+  - (* lt *) unfold bin, r_lt, num_cmp in H. crush_rule H.
+  - (* equals *) unfold bin, r_equals in H. crush_rule H.
+  - injection H as <-. reflexivity.
+  - (* bv relations *) destruct k; unfold r_bv_ult, r_bv_ule, r_bv_scmp in H; crush_rule H.
+  - (* string predicates *) destruct k; try discriminate Ho; unfold r_str in H; crush_rule H.
+Qed.
+
+Lemma frag_simplify_root ora y : atom_root (top y) = true -> atom_root (top (frag_simplify ora y)) = true.
+Proof.
+  intros Hy. unfold frag_simplify. destruct (frag_atom y); auto.
+  unfold simplify_with. destruct (simplify_opt ora y) as [r|] eqn:E; auto.
+  destruct y as [o args]. rewrite Simplifier_proofs.simplify_opt_unfold in E.
+  destruct (map_opt (simplify_opt ora) args) as [args'|]; [|discriminate].
+  unfold simp_rule in E. destruct (rule ora o args') as [r0|] eqn:Er; [|discriminate]. cbn in E.
+  destruct (tc r0); [|discriminate]. injection E as <-. exact (rule_root ora o args' r0 Hy Er).
+Qed.
+
+Lemma lit_ok_not_atom a : lit_ok a = true ->
+  (exists y, a = T ONot [y] /\ atom_root (top y) = true) \/ (atom_root (top a) = true /\ mk_not a = T ONot [a]).
+Proof.
+  destruct a as [o args]. destruct o; cbn; auto; try discriminate.
+  destruct args as [|y [|z r]]; cbn; try discriminate. eauto.
+Qed.
+Lemma negate_ok x : atom_root (top x) = true -> lit_ok (negate x) = true.
+Proof.
+  destruct x as [o args]. destruct o; cbn; try discriminate; auto.
+  destruct args; cbn; auto.
+Qed.
+Lemma simplify_atom_ok ora y : atom_root (top y) = true -> atom_root (top (Cnf.simplify (frag_simplify ora) y)) = true.
+Proof.
+  intros Hy. destruct y as [o args]. destruct o; try discriminate Hy; cbn [Cnf.simplify];
+    try (apply frag_simplify_root; exact Hy); auto.
+  destruct args; [reflexivity | apply frag_simplify_root; exact Hy].
+Qed.
+
+Lemma lit_ok_closed ora : lit_closed (frag_simplify ora) (fun l => lit_ok l = true).
+Proof.
+  intros a Ha. destruct (lit_ok_not_atom _ Ha) as [(y & -> & Hy)|[Hat Hm]].
+  - split.
+    + unfold Cnf.neg_lit. cbn [mk_not]. pose proof (simplify_atom_ok ora y Hy) as H.
+      destruct (Cnf.simplify (frag_simplify ora) y) as [o args]. destruct o; try discriminate H; exact H.
+    + cbn [mk_not]. destruct y as [o args]. destruct o; try discriminate Hy; exact Hy.
+  - split.
+    + unfold Cnf.neg_lit. rewrite Hm. cbn [Cnf.simplify]. apply negate_ok. now apply simplify_atom_ok.
+    + rewrite Hm. exact Hat.
+Qed.
+
+Section Shape.
+  Variable ora : oracle.
+  Let asimp := frag_simplify ora.
+
+  Lemma shape_from_lits w f st cl st' : walk_ok asimp wfi w f -> atoms_ok f = true ->
+    convert_with asimp w f st = Some (cl, st') -> clauses_of_literals cl.
+  Proof.
+    intros Hw Ha Hc.
+    assert (H : Forall (Forall (fun l => lit_ok l = true)) cl).
+    { assert (Hlv : forall a, In a (leaves f) -> lit_ok a = true).
+      { intros a Hin. unfold atoms_ok in Ha. rewrite forallb_forall in Ha. pose proof (Ha a Hin) as Hr.
+        destruct a as [o args]. destruct o; try discriminate Hr; exact Hr. }
+      exact (convert_lits asimp wfi w f st cl st' (fun l => lit_ok l = true) Hw (lit_ok_closed ora)
+               (fun n => conj eq_refl eq_refl) eq_refl eq_refl Hlv Hc). }
+    unfold clauses_of_literals. eapply Forall_impl; [|exact H]. intros c Hcl.
+    eapply Forall_impl; [|exact Hcl]. intros l. apply lit_ok_litc.
+  Qed.
+
+  (* C11, shape for the simplifier model: when the atoms of f are symbols, constants, applications,
+     relations, equalities or string predicates, the result is a set of clauses of literals *)
+  Theorem cnf_shape_simplifier f st cl st' : atoms_ok f = true ->
+    cnf_convert asimp f st = Some (cl, st') -> clauses_of_literals cl.
+  Proof. apply shape_from_lits. exact (cnf_walk_ok asimp wfi (frag_simplify_sound ora) (proj1 wfi_closed) f). Qed.
+  Theorem pol_shape_simplifier f st cl st' : atoms_ok f = true ->
+    pol_convert asimp f st = Some (cl, st') -> clauses_of_literals cl.
+  Proof. apply shape_from_lits. exact (pol_walk_ok asimp wfi (frag_simplify_sound ora) (proj1 wfi_closed) f). Qed.
+End Shape.
+
+(* the side condition cannot be dropped: an atom that selects from a constant array value with
+   Bool elements is rewritten to the stored element, here a conjunction
+   (pysmt: cnf_as_set(Or(p, Not(Select(Array(INT, FALSE, {1: a & b}), 1)))) = {{!(a & b), p}}) *)
+Definition sa := TSym "a" TBool.
+Definition sb := TSym "b" TBool.
+Definition sel_atom : term := T OSelect [T (OArrayValue TInt) [TFalse; TIntC 1; T OAnd [sa; sb]]; TIntC 1].
+Definition sel_f : term := T OOr [TSym "p" TBool; T ONot [sel_atom]].
+Theorem shape_hyp_refuted : ~ shape_hyp (frag_simplify no_oracle).
+Proof.
+  intros H. specialize (H sel_atom eq_refl).
+  assert (E : frag_simplify no_oracle sel_atom = T OAnd [sa; sb]) by (vm_compute; reflexivity).
+  rewrite E in H. discriminate H.
+Qed.
+Theorem cnf_shape_refuted :
+  exists f st cl st', start_ok f st /\ cnf_convert (frag_simplify no_oracle) f st = Some (cl, st') /\
+                      ~ clauses_of_literals cl.
+Proof.
+  exists sel_f, (init_state 0 ["p"; "a"; "b"]%string), [[TSym "p" TBool; T ONot [T OAnd [sa; sb]]]]. eexists.
+  split; [|split].
+  - split; [reflexivity|]. intros n ty H. vm_compute in H.
+    repeat (destruct H as [H|H]; [injection H as <- _; cbn; tauto|]). destruct H.
+  - vm_compute. reflexivity.
+  - intros H. inversion H as [|? ? Hc _]; subst. inversion Hc as [|? ? _ Hc']; subst.
+    inversion Hc' as [|? ? Hl _]; subst. discriminate Hl.
+Qed.
 
 (* non-vacuity: a formula with a theory atom that the simplifier rewrites (1 + 2 <= x becomes
    3 <= x in the clause built from the negated literal) *)
